@@ -1,4 +1,6 @@
 """C06 -- the packet reader is total and stays inside its buffers."""
+from ..facts import AnchorLost
+from ..ir import IR, show, strip_sites
 from .common import totality, loops
 from .shared_tables import BUFFER, HUFFMAN_DECOMPRESS, HUFFMAN_DECOMPRESS_LOOPS
 
@@ -68,7 +70,84 @@ REVIEWED_LOOPS = dict(HUFFMAN_DECOMPRESS_LOOPS)
 def run(ctx, rep):
     R, pa = totality(ctx, rep, "R1-no-panic", ENTRIES, REVIEWED)
     loops(ctx, rep, "R2-loops", R, REVIEWED_LOOPS)
+    from .C05 import reader_size_limit
+    for mod in ("libtw2_net::protocol", "libtw2_net::protocol7"):
+        reader_size_limit(ctx.prog, rep, "R4-accepted-payload-bounded", mod)
+        decompress_agreement(ctx.prog, rep, mod)
     if ctx.tier == "thorough":
         from .. import witness
         n = witness.run(ctx, rep, "R3-compile-fail-witnesses", ("W7", "W8"))
         rep.floor("R3-compile-fail-witnesses", n, 2, "type-level witnesses W7-W8 of witness/src/lib.rs (parsed packets borrow the datagram and the scratch buffer)")
+
+
+def _flag_atom(e, truth):
+    """(mask, must_be_zero) for Eq/Ne(BitAnd(<header>.flags, mask), 0) with the given truth value"""
+    if e[0] != "bin" or e[1] not in ("Eq", "Ne"):
+        return None
+    a, b = e[2], e[3]
+    if not (b[0] == "c" and b[1] == 0 and a[0] == "bin" and a[1] == "BitAnd" and a[3][0] == "c"):
+        return None
+    if not show(strip_sites(a[2])).endswith(".flags"):
+        return None
+    return (a[3][1], (e[1] == "Eq") == truth)
+
+
+def _truth(rel, v):
+    if rel == "==" and v in (0, 1):
+        return bool(v)
+    if rel == "notin" and len(v) == 1 and v[0] in (0, 1):
+        return not bool(v[0])
+    return None
+
+
+def decompress_agreement(prog, rep, mod):
+    """R5: the flag tests that decompress_impl asserts (reviewed lines of R1 rest on them) are exactly implied by
+    needs_decompression() == true, the predicate decompress_if_needed and read_impl test first"""
+    rule = "R5-decompress-precondition-agreement"
+    tag = mod.split("::")[-1]
+    nd = prog.one(mod + "::Packet::needs_decompression")
+    di = prog.one(mod + "::Packet::decompress_impl")
+    nir, dir_ = IR(nd), IR(di)
+    true_atoms = None
+    for bi in sorted(nd.live):
+        for si, st in enumerate(nd.blocks[bi]["st"]):
+            if st["k"] == "assign" and st["p"]["l"] == 0 and not st["p"].get("pr"):
+                e = nir.rvalue(st["r"], (bi, si))
+                if e[0] == "c" and e[1] == 0:
+                    continue
+                atoms = set()
+                if not (e[0] == "c" and e[1] == 1):
+                    a = _flag_atom(e, True)
+                    if a is None:
+                        atoms.add(("?", show(strip_sites(e))[:60]))
+                    else:
+                        atoms.add(a)
+                for c, rel, v, edge, dty in nir.edge_conditions(bi):
+                    t = _truth(rel, v)
+                    a = _flag_atom(c, t) if t is not None else None
+                    if a is not None:
+                        atoms.add(a)
+                true_atoms = atoms if true_atoms is None else (true_atoms & atoms)
+    if true_atoms is None:
+        raise AnchorLost("%s needs_decompression: no path returns true" % tag)
+    asserted = set()
+    for bi, t in di.calls():
+        if "panicking::panic" not in (t.get("callee") or ""):
+            continue
+        conds = dir_.edge_conditions(bi)
+        if not conds:
+            continue
+        c, rel, v, edge, dty = conds[0]
+        tr = _truth(rel, v)
+        if tr is None:
+            continue
+        a = _flag_atom(c, not tr)      # the assert demands the opposite of what leads to the panic
+        if a is not None:
+            asserted.add(a)
+    rep.floor(rule, len(asserted), 1, "%s: flag asserts in decompress_impl" % tag)
+    fmt = lambda s_: sorted("flags & %#x %s 0" % (m, "==" if z else "!=") for m, z in s_ if m != "?")
+    ok = asserted <= true_atoms
+    rep.ob(rule, "%s | needs_decompression implies decompress_impl's asserts" % tag, ok,
+           "needs_decompression() == true establishes %s; decompress_impl asserts %s" % (fmt(true_atoms), fmt(asserted)) if ok else
+           "decompress_impl asserts %s but needs_decompression() == true only establishes %s: decompress_if_needed can reach the assert on attacker bytes"
+           % (fmt(asserted), fmt(true_atoms)), nd.loc())
